@@ -1031,6 +1031,12 @@ void mon_boundary_eval(void)
         if (pr->op == OP_WAITP && PR[pr->obj].finished && !PR[pr->obj].start_pending && pr->arg == 0 && PR[pr->obj].end_time <= now
             && PR[pr->obj].end_seq >= pr->callseq * 0)
             pend_viol("C09", "waiter-not-resumed", "process %d is still suspended waiting for process %d, which ended at t=%g", i, pr->obj, PR[pr->obj].end_time);
+        /* C08: a buffer call that has moved all it asked for has no demand left; it may not stay suspended (a get of exactly
+         * the level, or a put of exactly the free space, served by the 'take what is there' branch and sent to wait for more) */
+        if ((pr->op == OP_BGET && pr->bufvar == pr->buf_req) || (pr->op == OP_BPUT && pr->bufvar == 0))
+            pend_viol("C08", pr->op == OP_BGET ? "blocked-though-served/buffer-get" : "blocked-though-served/buffer-put",
+                      "process %d is still suspended in a buffer %s of %" PRIu64 " at the end of instant t=%g although the whole amount has been transferred",
+                      i, pr->op == OP_BGET ? "get" : "put", pr->buf_req, now);
         if (pr->op == OP_WAITT && !cmb_event_is_scheduled(pr->waitt_handle))
             pend_viol("C04", "waitevent-overdue", "process %d is still suspended waiting for timer event %" PRIu64 " of process %d, which has been executed or cancelled", i, pr->waitt_handle, pr->obj);
         if (pr->op == OP_WAITE && !W.hev[pr->obj].pending && (W.hev[pr->obj].executed || W.hev[pr->obj].cancelled))
